@@ -38,11 +38,20 @@ def run(tier):
             c.sc, c.profile, c.mode, c.seed = gen.gen_colliding_modules(seed * 1000 + k), "colliding_modules", ("loop" if k % 2 else "dispatch"), seed * 1000 + k
             cases.append(c)
 
+        # teardown of the whole context whose stop callbacks try to start / resume their own module again
+        for k in range((24 if tier == "quick" else 600) if variant == "plain" else 8):
+            c = cc.Case()
+            c.sc, c.profile, c.mode, c.seed = gen.gen_teardown_restart(seed * 1000 + k), "teardown_restart", ("loop" if k % 2 else "dispatch"), seed * 1000 + k
+            cases.append(c)
+
         def oracle(case):
             v = model_ctx.check_c07(case, stats)
             if case.profile in ("ctx_lifecycle", "colliding_modules"):
                 # teardown must stop running modules through their stop callback exactly once: C01's pairing clause
                 v += [("C07/" + k.split("/", 1)[1], d) for k, d in model_lifecycle.check(case, None) if "stop-callback" in k or "stopped-without" in k]
+            if case.profile == "teardown_restart":
+                # ... and ZOMBIE is final: the whole lifecycle oracle (C01) judges these scenarios
+                v += [("C07/" + k.split("/", 1)[1], d) for k, d in model_lifecycle.check(case, None)]
             return v
 
         def relevant(case):
